@@ -1,6 +1,6 @@
 (* C48: module callbacks run in order and verdicts are honoured.  Property theorems only. *)
 From Coq Require Import List ZArith Bool.
-From Bfe Require Import lib.Val lib.ValProofs model.Callbacks run.RunC48 proofs.CallbacksProofs.
+From Bfe Require Import lib.Val lib.ValProofs model.Callbacks run.RunC48 proofs.CallbacksProofs proofs.CallbacksTieProofs.
 Import ListNotations.
 Open Scope Z_scope.
 
@@ -94,6 +94,18 @@ Theorem C48_ignored_is_continue : forall chains bst p calls rest,
 Proof. exact ignored_is_continue. Qed.
 Print Assumptions C48_ignored_is_continue.
 
+(* CENTRAL THEOREM, partial (guard: the input lies in the explicit finite domain c48_domain).  For every input of the
+   domain - handler count 1 or 2; any two callback points p < q among the nine scripted with every chain of length <= h at p and
+   every chain of length <= 1 at q over the verdicts Finish / continue / Redirect / Response / Close, plain connections and, when
+   HandleAccept or HandleHandshake is involved, TLS connections as well; plus every triple (request-phase point or HandleForward,
+   HandleReadResponse, HandleRequestFinish) of single-handler chains incl. unknown verdict values and other variants; more than
+   13 000 inputs, enumerated completely inside Coq - the model's output satisfies the executable property predicate that the
+   harness evaluates on the implementation: prop_C48 i (run_C48 i) = true.  (The full statement for all chains is not proved;
+   outside the domain the implication is tested on every generated case.) *)
+Theorem C48_prop_of_run_partial : forall i, In i c48_domain -> kf_C48 i = 0 -> prop_C48 i (run_C48 i) = true.
+Proof. exact prop_of_run_bounded. Qed.
+Print Assumptions C48_prop_of_run_partial.
+
 (* Non-vacuity: a 4-handler chain continue, continue, Response(variant 1), Close: the first three run, verdict Response. *)
 Example C48_chain_example : run_chain [1; 11; 13; 4] = ([1; 11; 13], 13) /\ first_non_continue [1; 11; 13; 4] = 2%nat.
 Proof. exact (conj eq_refl eq_refl). Qed.
@@ -102,3 +114,8 @@ Example C48_close_example :
   let chains := fun p => if p =? 3 then [1; 4] else [1; 1] in
   earlier_pass chains 3 /\ react chains 3 = RCloseDirect /\ q_calls (serve_request chains 200) = [(2, [1; 1]); (3, [1; 4]); (7, [1; 1])].
 Proof. exact close_example. Qed.
+(* a corpus case (Response at HandleBeforeLocation, then Finish at HandleReadResponse) lies in the domain of the central theorem *)
+Example C48_corpus_case_in_domain :
+  in_domain (VL [VZ 2; VZ 200; VZ 0; vLZ []; vLZ []; vLZ [3]; vLZ []; vLZ []; vLZ []; vLZ [0]; vLZ []; vLZ []]) = true
+  /\ (10000 <? Z.of_nat (length c48_domain)) = true.
+Proof. exact corpus_case_in_domain. Qed.
